@@ -192,6 +192,10 @@ func init() {
 		Name:  func(i int) string { return c03Jobs()[i].name },
 		Class: func(i int) string { return c03Class(c03Jobs()[i].name) + " input=" + c03Features(c03Jobs()[i].vals) },
 		Run:   func(i int, c *isoCtx) { c03Run(c03Jobs()[i], c) },
+		CrashSig: func(i int, site string) string {
+			cls := c03Class(c03Jobs()[i].name) + " input=" + c03Features(c03Jobs()[i].vals)
+			return c03VecSig("process-crash", cls, ": "+site)
+		},
 	}
 }
 
@@ -236,6 +240,9 @@ func c03BuildJobs() []c03Job {
 					}
 					if !rep.Thorough() && (np == "first" || np == "last") && n > 2 && d != 256 {
 						continue
+					}
+					if !rep.Thorough() && ty.name == "enum" && !(n == 257 && d == 2 && (np == "none" || np == "all")) && n > 2 {
+						continue // every enum script kills its child process: keep three in quick
 					}
 					vals := make([]zed.Value, 0, n)
 					for j := 0; j < n; j++ {
@@ -315,8 +322,37 @@ func c03BuildJobs() []c03Job {
 // vector-path defects depend on, so that signatures stay specific.
 func c03Features(vals []zed.Value) string {
 	var nullUnion, enum bool
+	var hasUnion func(t zed.Type) bool
+	hasUnion = func(t zed.Type) bool {
+		switch t := t.(type) {
+		case *zed.TypeNamed:
+			return hasUnion(t.Type)
+		case *zed.TypeUnion:
+			return true
+		case *zed.TypeRecord:
+			for _, f := range t.Fields {
+				if hasUnion(f.Type) {
+					return true
+				}
+			}
+		case *zed.TypeArray:
+			return hasUnion(t.Type)
+		case *zed.TypeSet:
+			return hasUnion(t.Type)
+		case *zed.TypeMap:
+			return hasUnion(t.KeyType) || hasUnion(t.ValType)
+		case *zed.TypeError:
+			return hasUnion(t.Type)
+		}
+		return false
+	}
 	var walk func(t zed.Type, b zcode.Bytes)
 	walk = func(t zed.Type, b zcode.Bytes) {
+		if b == nil && hasUnion(t) {
+			// a null container nulls the union-typed columns below it
+			nullUnion = true
+			return
+		}
 		switch t := t.(type) {
 		case *zed.TypeNamed:
 			walk(t.Type, b)
@@ -375,6 +411,16 @@ func c03Features(vals []zed.Value) string {
 	return strings.Join(f, "+")
 }
 
+// c03VecSig is the signature of a vector-path failure: for inputs with a
+// feature the vector runtime is known not to support, every kind of failure is
+// the same finding; for plain inputs the symptom is kept.
+func c03VecSig(symptom, cls, extra string) string {
+	if !strings.HasSuffix(cls, "input=plain") {
+		return "symptom=vector-path-defect case=" + cls
+	}
+	return "symptom=" + symptom + " case=" + cls + extra
+}
+
 func c03Run(j c03Job, run *isoCtx) {
 	{
 		run.Eval(j.name)
@@ -392,19 +438,19 @@ func c03Run(j c03Job, run *isoCtx) {
 		}
 		vec, err := vngReadVectors(b, nil)
 		if err != nil {
-			run.Violation(fmt.Sprintf("symptom=vector-path-failed case=%s: %s", cls, errClass(err)), map[string]any{"case": j.name, "error": err.Error()})
+			run.Violation(c03VecSig("vector-path-failed", cls, ": "+errClass(err)), map[string]any{"case": j.name, "error": err.Error()})
 		} else if k, ok := gen.SeqEq(j.vals, vec); !ok {
-			run.Violation(fmt.Sprintf("symptom=vector-path-sequence-changed case=%s", cls), c03Detail(j.name, j.vals, vec, k))
+			run.Violation(c03VecSig("vector-path-sequence-changed", cls, ""), c03Detail(j.name, j.vals, vec, k))
 		}
 		for _, paths := range j.paths {
 			got, err := vngReadVectors(b, paths)
 			pname := fmt.Sprint(paths)
 			if err != nil {
-				run.Violation(fmt.Sprintf("symptom=projection-failed case=%s: %s", cls, errClass(err)), map[string]any{"case": j.name, "paths": pname, "error": err.Error()})
+				run.Violation(c03VecSig("projection-failed", cls, ": "+errClass(err)), map[string]any{"case": j.name, "paths": pname, "error": err.Error()})
 				continue
 			}
 			if len(got) != len(j.vals) {
-				run.Violation(fmt.Sprintf("symptom=projection-changes-value-count case=%s", cls), map[string]any{"case": j.name, "paths": pname, "want": len(j.vals), "got": len(got)})
+				run.Violation(c03VecSig("projection-changes-value-count", cls, ""), map[string]any{"case": j.name, "paths": pname, "want": len(j.vals), "got": len(got)})
 				continue
 			}
 			for k := range got {
@@ -416,7 +462,7 @@ func c03Run(j c03Job, run *isoCtx) {
 					}
 					if wok != hok || (wok && !gen.ValueEq(want, have)) {
 						d := map[string]any{"case": j.name, "paths": pname, "index": k, "path": p.String(), "full_value": gen.Describe(j.vals[k]), "projected_value": gen.Describe(got[k])}
-						run.Violation(fmt.Sprintf("symptom=projection-differs-from-full-read case=%s", cls), d)
+						run.Violation(c03VecSig("projection-differs-from-full-read", cls, ""), d)
 						return
 					}
 				}
